@@ -2,6 +2,7 @@ package netsim
 
 import (
 	"fmt"
+	"os"
 
 	"github.com/kardiachain/go-kardia/consensus"
 	cstypes "github.com/kardiachain/go-kardia/consensus/types"
@@ -257,6 +258,230 @@ var Attacks = []Attack{
 		a.Net.Filter = nil
 		a.Net.Group = nil
 		return n > 0
+	}},
+	{"stale-polka-then-amnesia-fork", func(a *AttackCtx) bool {
+		// Three correct nodes X, Y, Z and the adversary F (< 1/3). Round 1: everybody prevotes A but nobody sees the
+		// polka in time (one prevote to Y is delayed). Round 2: Y sees a polka for B and locks; X also collects +2/3
+		// precommits for B (with F's) and commits B; Y and Z do not. Later the delayed round-1 prevote reaches Y: a
+		// polka for A dated BEFORE Y's lock. In a later round a fresh block C is proposed, F "forgets" its precommit
+		// for B and votes C. Y must stay locked on B; if it does not, C gets +2/3 and Y, Z commit C against X's B.
+		nodes := a.correct()
+		miss := func(s string) bool { a.logf("miss %s: %s", s, a.Net.Dump()); a.Net.Filter = nil; return false }
+		if len(nodes) != 3 || len(a.Net.Nodes) != 4 {
+			return miss("cfg")
+		}
+		X, Y, Z := nodes[0], nodes[1], nodes[2]
+		for _, n := range nodes {
+			if n.CS.GetRoundState().Step == cstypes.RoundStepNewHeight {
+				a.Net.fire(n)
+			}
+		}
+		h := X.CS.GetRoundState().Height
+		voteOf := func(m consensus.Message) *types.Vote {
+			if vm, ok := m.(*consensus.VoteMessage); ok {
+				return vm.Vote
+			}
+			return nil
+		}
+		byzProposes := func(variant int) *advBlock {
+			ab := a.Adv.MakeBlock(Y, a.B, variant)
+			if ab == nil {
+				return nil
+			}
+			rs := Y.CS.GetRoundState()
+			for _, n := range a.correct() {
+				if n.CS.GetRoundState().Height == h {
+					a.sendBlock(n, ab, h, rs.Round, 0)
+				}
+			}
+			return ab
+		}
+		isProposer := func(n *Node) bool {
+			return Y.CS.GetRoundState().Validators.GetProposer().Address == n.Addr
+		}
+		byzTurn := func() bool {
+			return Y.CS.GetRoundState().Validators.GetProposer().Address == a.Net.Addrs[a.B]
+		}
+		// ---- round 1: block A, prevotes seen pairwise only
+		r1 := Y.CS.GetRoundState().Round
+		allow := map[[2]int]bool{{Y.Idx, X.Idx}: true, {Z.Idx, Y.Idx}: true, {X.Idx, Z.Idx}: true} // from -> to
+		a.Net.Filter = func(from, to *Node, m consensus.Message) bool {
+			if v := voteOf(m); v != nil && v.Height == h && v.Round == r1 && v.Type == kproto.PrevoteType {
+				// only the sender's OWN prevote travels, and only along the allowed pairs
+				return v.ValidatorAddress == from.Addr && allow[[2]int{from.Idx, to.Idx}]
+			}
+			return true
+		}
+		if byzTurn() {
+			if byzProposes(0) == nil {
+				return miss("m1")
+			}
+		}
+		a.Net.Fixpoint(50)
+		a.voteAll(kproto.PrevoteType, h, r1, types.BlockID{}, nodes) // F prevotes nil: +2/3 any everywhere, no polka
+		a.Net.Fixpoint(50)
+		for _, n := range nodes {
+			rs := n.CS.GetRoundState()
+			if rs.LockedBlock != nil || rs.Height != h {
+				return miss("m2")
+			}
+			if rs.Step == cstypes.RoundStepPrevoteWait {
+				a.Net.fire(n) // precommit nil
+			}
+		}
+		a.Net.Fixpoint(50) // nil precommits travel freely: +2/3 nil
+		for _, n := range nodes {
+			if rs := n.CS.GetRoundState(); rs.Round == r1 && rs.Height == h {
+				a.Net.fire(n) // precommit wait -> round 2
+			}
+		}
+		// the block everybody prevoted in round 1
+		var blockA types.BlockID
+		if pv := Y.CS.GetRoundState().Votes.Prevotes(r1); pv != nil {
+			for _, v := range votesOf(pv) {
+				if !v.BlockID.IsZero() {
+					blockA = v.BlockID
+				}
+			}
+		}
+		if blockA.IsZero() {
+			return miss("m3")
+		}
+		// ---- round 2: block B; X and Y see the polka, Z does not; precommits: X gets Y's and F's, Y gets X's and Z's
+		r2 := r1 + 1
+		for _, n := range nodes {
+			if rs := n.CS.GetRoundState(); rs.Round != r2 || rs.Height != h {
+				return miss("m4")
+			}
+		}
+		a.Net.Filter = func(from, to *Node, m consensus.Message) bool {
+			v := voteOf(m)
+			if v == nil || v.Height != h {
+				return true
+			}
+			if v.Round == r1 && v.Type == kproto.PrevoteType {
+				return false // the delayed round-1 prevotes stay delayed
+			}
+			if v.Round == r2 && v.Type == kproto.PrevoteType {
+				if to == Z {
+					return v.ValidatorAddress == X.Addr // Z sees one other prevote only (+ F's nil below): no polka
+				}
+				return true
+			}
+			if v.Round == r2 && v.Type == kproto.PrecommitType {
+				if v.ValidatorAddress == a.Net.Addrs[a.B] {
+					return false // F's precommit for B is for X's eyes only and X does not pass it on
+				}
+				if to == X {
+					return v.ValidatorAddress == Y.Addr
+				}
+				if to == Y {
+					return v.ValidatorAddress == X.Addr || v.ValidatorAddress == Z.Addr
+				}
+				return true
+			}
+			return true
+		}
+		if byzTurn() {
+			if byzProposes(1) == nil {
+				return miss("m5")
+			}
+		}
+		a.Net.Fixpoint(50)
+		rsY := Y.CS.GetRoundState()
+		if rsY.ProposalBlock == nil {
+			return miss("m6")
+		}
+		blockB := types.BlockID{Hash: rsY.ProposalBlock.Hash(), PartsHeader: rsY.ProposalBlockParts.Header()}
+		if blockB.Equal(blockA) {
+			return miss("m7")
+		}
+		a.voteAll(kproto.PrevoteType, h, r2, types.BlockID{}, []*Node{Z}) // F: nil towards Z (+2/3 any there)
+		a.Net.Fixpoint(50)
+		if Z.CS.GetRoundState().Step == cstypes.RoundStepPrevoteWait {
+			a.Net.fire(Z) // Z precommits nil
+		}
+		a.Net.Fixpoint(50)
+		a.voteAll(kproto.PrecommitType, h, r2, blockB, []*Node{X}) // F precommits B towards X only: X commits B
+		a.Net.Fixpoint(50)
+		if X.BO.Height() < h || Y.CS.GetRoundState().LockedBlock == nil || Y.BO.Height() >= h {
+			return miss("m8")
+		}
+		a.logf("height %d: round %d all prevoted A=%s (no polka seen); round %d: X committed B=%s, Y locked on B, Z not", h, r1, ShortBID(blockA), r2, ShortBID(blockB))
+		// Y and Z leave round 2 through the precommit-wait timeout
+		for _, n := range []*Node{Y, Z} {
+			if rs := n.CS.GetRoundState(); rs.Round == r2 && rs.Height == h {
+				a.Net.fire(n)
+			}
+		}
+		// ---- later: the delayed round-1 prevote reaches Y (stale polka for A), X stays silent for this height
+		a.Net.Filter = func(from, to *Node, m consensus.Message) bool {
+			if from == X || to == X {
+				return false // X has decided; what it knows stays with it for now
+			}
+			if v := voteOf(m); v != nil && to == Z && v.Height == h && v.Round <= r2 && v.Type == kproto.PrevoteType {
+				return false // Z never learns of the polka for B
+			}
+			return true
+		}
+		// X's own round-1 prevote for A, taken from Z (which received it)
+		for _, v := range votesOf(Z.CS.GetRoundState().Votes.Prevotes(r1)) {
+			if v.ValidatorAddress == X.Addr {
+				a.Net.Inject(Y, &consensus.VoteMessage{Vote: v})
+			}
+		}
+		// rounds go by until a round whose proposer is Z (not locked) or F; F then votes for the fresh block C
+		for i := 0; i < 8; i++ {
+			rs := Y.CS.GetRoundState()
+			if rs.Height != h {
+				break
+			}
+			rr := rs.Round
+			a.Net.Fixpoint(50)
+			var c *types.BlockID
+			switch {
+			case byzTurn():
+				if ab := byzProposes(1 - i%2); ab != nil {
+					c = &ab.bid
+				}
+			case isProposer(Z):
+				if zr := Z.CS.GetRoundState(); zr.ProposalBlock != nil {
+					id := types.BlockID{Hash: zr.ProposalBlock.Hash(), PartsHeader: zr.ProposalBlockParts.Header()}
+					c = &id
+				}
+			}
+			a.Net.Fixpoint(50)
+			fireIn := func(step cstypes.RoundStepType) {
+				for _, n := range []*Node{Y, Z} {
+					if ti, ok := n.Tick.Pending(); ok && ti.Height == h && ti.Round == rr && ti.Step == step {
+						a.Net.fire(n)
+					}
+				}
+				a.Net.Fixpoint(50)
+			}
+			fireIn(cstypes.RoundStepPropose) // nothing (acceptable) was proposed
+			vote := types.BlockID{}
+			if c != nil && !c.Equal(blockB) {
+				vote = *c // amnesia: F forgets its precommit for B
+				a.logf("round %d: fresh block C=%s proposed, F votes for it", rr, ShortBID(*c))
+			} else {
+				a.logf("round %d: no fresh block (proposer %x)", rr, rs.Validators.GetProposer().Address[:3])
+			}
+			a.voteAll(kproto.PrevoteType, h, rr, vote, []*Node{Y, Z})
+			a.Net.Fixpoint(50)
+			fireIn(cstypes.RoundStepPrevoteWait)
+			a.voteAll(kproto.PrecommitType, h, rr, vote, []*Node{Y, Z})
+			a.Net.Fixpoint(50)
+			if os.Getenv("VERIF_DEBUG_ATTACK") != "" {
+				a.logf("after round %d: %v", rr, a.Net.Dump())
+			}
+			if Y.BO.Height() >= h || Z.BO.Height() >= h {
+				break
+			}
+			fireIn(cstypes.RoundStepPrecommitWait)
+		}
+		a.Net.Filter = nil
+		return true
 	}},
 	{"amnesia-after-lock", func(a *AttackCtx) bool {
 		// The adversary precommits X in round 1 towards one half and then prevotes/precommits another block in
